@@ -721,6 +721,7 @@ type rocCase struct {
 	sroc, rroc uint32
 	seqs       []uint32
 	order      []int
+	inorderAll bool // everything delivered in order: encoded as kind 10 (linear in the model)
 	well       bool // monotone sender, receiver starts in the right ROC, gaps < 2^15: must all decrypt
 }
 
@@ -814,6 +815,11 @@ func genRocCase(r *hx.Rand) *rocCase {
 
 func (rc *rocCase) line() string {
 	var c hx.L
+	if rc.inorderAll {
+		c.N(10).N(uint64(rc.sroc)).N(uint64(rc.rroc))
+		putList(&c, u64s(rc.seqs))
+		return c.String()
+	}
 	c.N(4).N(uint64(rc.sroc)).N(uint64(rc.rroc))
 	putList(&c, u64s(rc.seqs))
 	c.I(len(rc.order))
@@ -1032,7 +1038,7 @@ func stageCtx() {
 	}
 	if ctx.Thorough {
 		// one long monotone run: 3 full wraps, everything delivered
-		rc := &rocCase{sroc: 0, rroc: 0, well: true}
+		rc := &rocCase{sroc: 0, rroc: 0, well: true, inorderAll: true}
 		for i := 0; i < 3*65536+10; i++ {
 			rc.seqs = append(rc.seqs, uint32(i)&0xffff)
 			rc.order = append(rc.order, i)
